@@ -3033,3 +3033,19 @@ V(id='c24-rs-term-count-x-unbounded', prop='C24', file='mpmath/functions/rszeta.
 V(id='c24-benign-rs-term-count-break', prop='C24', file='mpmath/functions/rszeta.py',
   old="        L = L+1\n        if 3*L >= 2*a*a/25.:\n            # (condition (20) below has failed already, and this bound,\n            # of a divergent series, need never get below eps2)\n            ctx.prec = wpinitial\n            raise NotImplementedError(\"Riemann-Siegel can not compute with such precision\")\n",
   new="        L = L+1\n        if 3*L >= 2*a*a/25.:\n            break\n", expect='silent')
+
+# ---- C39 N-R10 (third hunt; fix a93bfbf) ----
+V(id='c39-fp-mag-frexp-of-infinity', prop='C39', file='mpmath/ctx_fp.py',
+  old="        if a == math2.INF:\n            return ctx.inf\n", new="", expect='fire:N-R10:mag')
+V(id='c39-fp-mag-frexp-of-nan', prop='C39', file='mpmath/ctx_fp.py',
+  old="        if z != z:\n            return ctx.nan\n", new="", expect='fire:N-R10:mag')
+V(id='c39-fp-mag-int-through-float', prop='C39', file='mpmath/ctx_fp.py',
+  old="        if isinstance(z, int_types):\n            # (exact, also beyond the range of a float)\n            return len(bin(abs(z))) - 2\n", new="", expect='fire:N-R10:mag')
+V(id='c39-fp-mag-abs-of-complex', prop='C39', file='mpmath/ctx_fp.py',
+  old="            a = max(abs(z.real), abs(z.imag))\n", new="            a = abs(z)\n", expect='fire:N-R10:mag')
+V(id='c39-fp-isnpint-rounds-infinity', prop='C39', file='mpmath/ctx_fp.py',
+  old="        return x <= 0.0 and x - x == 0.0 and round(x) == x\n", new="        return x <= 0.0 and round(x) == x\n", expect='fire:N-R10:isnpint')
+V(id='c39-fp-isnpint-excludes-infinity-too-late', prop='C39', file='mpmath/ctx_fp.py',
+  old="        return x <= 0.0 and x - x == 0.0 and round(x) == x\n", new="        return x <= 0.0 and round(x) == x and x - x == 0.0\n", expect='fire:N-R10:isnpint')
+V(id='c39-benign-fp-isnpint-isinf', prop='C39', file='mpmath/ctx_fp.py',
+  old="        return x <= 0.0 and x - x == 0.0 and round(x) == x\n", new="        return x <= 0.0 and not math.isinf(x) and round(x) == x\n", expect='silent')
